@@ -59,7 +59,7 @@ pub fn change_names(max: usize) -> impl Strategy<Value = Vec<String>> {
 }
 
 pub fn advance() -> impl Strategy<Value = Step> {
-    prop_oneof![Just(0u64), Just(1), Just(50), Just(99), Just(100), Just(101), Just(150), Just(250)].prop_map(Step::Advance)
+    prop_oneof![4 => Just(0u64), 4 => Just(1), 4 => Just(50), 4 => Just(99), 4 => Just(100), 4 => Just(101), 4 => Just(150), 4 => Just(250), 1 => Just(6_000), 1 => Just(61_000)].prop_map(Step::Advance)
 }
 
 pub fn release() -> impl Strategy<Value = Step> {
@@ -154,7 +154,7 @@ pub fn assemble(sched_seed: u64, seg: SegPattern, max_write: Option<usize>, gen:
     let mut replies = Vec::new();
     let mut k = 0usize;
     let steps = gen.into_iter().map(|g| conv(g, &mut k, &mut replies)).collect();
-    Script { sched_seed, seg, replies, steps, max_write, picture: None, broken_pipe: true, greeting: None }
+    Script { sched_seed, seg, replies, steps, max_write, picture: None, broken_pipe: true, greeting: None, lazy_events: false }
 }
 
 pub fn script(change_weight: u32, max_names: usize, max_steps: usize) -> impl Strategy<Value = Script> {
@@ -174,7 +174,7 @@ pub fn fault() -> impl Strategy<Value = Fault> {
         1 => (60..6000usize).prop_map(Fault::EofAfter),
         2 => (0..40usize).prop_map(Fault::ReadErrorAfter),
         3 => (0..4usize).prop_map(Fault::WriteErrorAfter),
-        2 => prop_oneof![Just("foo bar"), Just("ACK nonsense"), Just("list_OK x"), Just(": nokey"), Just("OK ")].prop_map(|g| Fault::Garbage(B::from(g))),
+        2 => prop_oneof![Just("foo bar"), Just("ACK nonsense"), Just("list_OK x"), Just(": nokey"), Just("OK "), Just("binary: 2\nabX"), Just("size: 3\nbinary: 3\nabcd")].prop_map(|g| Fault::Garbage(B::from(g))),
     ]
 }
 
